@@ -11,6 +11,7 @@ import (
 	"fmt"
 	"os"
 	"path/filepath"
+	"sort"
 	"strings"
 
 	"golang.org/x/tools/go/ssa"
@@ -141,7 +142,15 @@ var wraps = map[string]string{
 	"init:param":         "viaParam(source())",
 	"init:freevar":       "x := source()\n\tf := func() {\n\t\tsink(x)\n\t}\n\tf()",
 	"init:call":          "sink(source())",
-	"carry":              "x := source()\n\tfor i := 0; i < ki(); i++ {\n\t\tif c() {\n\t\t\topaque++\n\t\t}\n\t}\n\tsink(x)",
+	"carry":              "x := source()\n\tif c() {\n\t\topaque++\n\t} else {\n\t\topaque--\n\t}\n\tsink(x)",
+	"carry#2":            "x := source()\n\tfor i := 0; i < 3; i++ {\n\t\topaque++\n\t}\n\tsink(x)",
+	"carry#3":            "x := source()\n\tswitch ki() {\n\tcase 1:\n\t\topaque++\n\tcase 2:\n\t\topaque--\n\tdefault:\n\t\topaque += 2\n\t}\n\tif c() {\n\t\topaque++\n\t}\n\tsink(x)",
+	"carry#4":            "x := source()\n\ty := x + k()\n\tfor i := 0; i < 2; i++ {\n\t\tif c() {\n\t\t\topaque++\n\t\t\tcontinue\n\t\t}\n\t\topaque--\n\t}\n\tsink(y)",
+	"phi#2":              "x := source()\n\ty := k()\n\tif c() {\n\t\ty = k() + \"a\"\n\t} else {\n\t\ty = x\n\t}\n\tsink(y)",
+	"phi#3":              "y := source()\n\tfor i := 0; i < 2; i++ {\n\t\ty = y + k()\n\t}\n\tsink(y)",
+	"edge:binding#2":     "h := mkH(source())\n\tsink(h.f())",
+	"edge:arg#2":         "x := source()\n\tsink3(k(), k(), x)",
+	"edge:return#2":      "_, y := id2(k(), source())\n\tsink(y)",
 	"edge:return":        "sink(id(source()))",
 	"edge:arg":           "x := source()\n\tsink(x)",
 	"edge:binding":       "x := source()\n\tf := func() string {\n\t\treturn x\n\t}\n\tsink(f())",
@@ -153,6 +162,15 @@ type errT struct{ s string }
 func (e errT) Error() string { return e.s }
 
 func viaParam(x string) { sink(x) }
+func sink3(a, b, x any)  { sink(x) }
+
+type holder struct{ f func() string }
+
+func mkH(x string) holder {
+	f := func() string { return x }
+	return holder{f}
+}
+func id2(a, b string) (string, string) { return a, b }
 func id(x string) string { return x }
 `
 
@@ -248,6 +266,27 @@ func renderWrap(key string, variant int) string {
 
 // runSearch builds the wrapped program for `key`, runs it natively twice and through the taint analysis.
 func runSearch(key string) *searchResult {
+	if r, ok := searchCache["all:"+key]; ok {
+		return r
+	}
+	var last *searchResult
+	for _, k := range []string{key, key + "#2", key + "#3", key + "#4"} {
+		if _, ok := wraps[k]; !ok {
+			continue
+		}
+		last = runSearch1(k)
+		if last.nativeDep && !last.reported {
+			break
+		}
+	}
+	if last == nil {
+		last = &searchResult{note: "no template for " + key}
+	}
+	searchCache["all:"+key] = last
+	return last
+}
+
+func runSearch1(key string) *searchResult {
 	if r, ok := searchCache[key]; ok {
 		return r
 	}
@@ -259,7 +298,7 @@ func runSearch(key string) *searchResult {
 	}
 	var outs [2]string
 	for v := 0; v < 2; v++ {
-		dir := lib.WorkDir(prop, fmt.Sprintf("search_%s_%d", sanitizeKey(key), v))
+		dir := workDir(fmt.Sprintf("search_%s_%d", sanitizeKey(key), v))
 		src := renderWrap(key, v)
 		lib.WriteProgram(dir, "vwrap", map[string]string{"main.go": src})
 		out, err := lib.GoRun(dir, 20)
@@ -276,18 +315,8 @@ func runSearch(key string) *searchResult {
 				r.note = fmt.Sprintf("taint analysis did not run: %v %s", res.LoadErr, res.Panic)
 				return r
 			}
-			// the sink of the template is the last sink( line of main
-			want := 0
-			for i, l := range strings.Split(src, "\n") {
-				if strings.Contains(l, "sink(") && !strings.HasPrefix(l, "func sink(") {
-					want = i + 1
-				}
-			}
-			for _, fl := range res.Flows {
-				if fl.SinkLine == want {
-					r.reported = true
-				}
-			}
+			// every template has exactly one source and one sink: any reported flow is that flow
+			r.reported = len(res.Flows) > 0
 		}
 	}
 	r.nativeDep = outs[0] != outs[1]
@@ -296,4 +325,30 @@ func runSearch(key string) *searchResult {
 
 func sanitizeKey(s string) string {
 	return strings.NewReplacer(":", "_", "<", "lt", "-", "m", "*", "star", "!", "not", "^", "xor").Replace(s)
+}
+
+// sweepWraps runs every template through the native ground truth and the real taint analysis: each
+// listed instruction kind, origin kind and boundary-use kind wrapped between a source and a sink
+// must be reported (thorough tier; VERIF_C08_WRAPS=1 in quick).
+func sweepWraps(rep *lib.Report) {
+	var keys []string
+	for k := range wraps {
+		keys = append(keys, k)
+	}
+	sort.Strings(keys)
+	for _, k := range keys {
+		r := runSearch1(k)
+		rep.Case("wrap|" + k)
+		switch {
+		case r.note != "":
+			rep.Fail("wrap-harness:"+k, "template "+k+" could not be evaluated: "+r.note, []byte(r.program), true)
+		case !r.nativeDep:
+			rep.Count("wraps:no-native-dependence")
+			rep.Notes = append(rep.Notes, "template "+k+": the sink value does not depend on the source natively (template is vacuous)")
+		case !r.reported:
+			rep.Fail("wrap:"+k, fmt.Sprintf("construct %q between a source and a sink: the sink value depends on the source natively, the taint analysis reports nothing", k), []byte(r.program), false)
+		default:
+			rep.Count("wraps:reported")
+		}
+	}
 }
